@@ -120,6 +120,17 @@ impl<'a> Interpreter<'a> {
         }
     }
 
+    /// An interpreter for code that runs on behalf of this one (macro bodies). It
+    /// continues this interpreter's call depth, so that recursion passing through a macro
+    /// body is still bounded by the depth limit.
+    pub fn nested<'b>(&self, cel: &'b CelContext, bindings: &'b BindContext) -> Interpreter<'b> {
+        Interpreter {
+            cel: Some(cel),
+            bindings: Some(bindings),
+            depth: ScopedCounter::starting_at(self.depth.count()),
+        }
+    }
+
     pub fn empty() -> Interpreter<'a> {
         Interpreter {
             cel: None,
